@@ -279,7 +279,7 @@ def scen_two_generators(ch, params, out):
     ma = ch.choose("max_literals_A", [0, 1, 3, 4, 10])
     mb = ch.choose("max_literals_B", [0, 1, 3, 4, 10])
     n = ch.choose("distinct_strings", [1, 3, 9])
-    when = ch.choose("B_constructed", ["before_A", "between_construct_and_generate", "after_generate"])
+    when = ch.choose("B_constructed", ["before_A", "between_construct_and_generate", "after_generate", "same_model_rendered_again_with_B_limit"])
     strs = {f"v{i}" for i in range(n)}
     model_a = ModelMeta({"f": StringLiteral(set(strs)), "g": int}, "1A")
     model_a.set_raw_name("A")
@@ -300,6 +300,13 @@ def scen_two_generators(ch, params, out):
     except Exception as e:
         out.fail("generator_raises", f"{type(e).__name__}: {e} ({out.info})", "generator_raises")
         return
+    if when == "same_model_rendered_again_with_B_limit":
+        try:
+            _, text = GA(model_a, max_literals=mb).generate()     # the same model (and its type objects) under the other limit
+        except Exception as e:
+            out.fail("generator_raises", f"{type(e).__name__}: {e} ({out.info})", "generator_raises")
+            return
+        ma = mb
     expect_literal = n < ma and fa != "attrs" and ma != 0
     has = "Literal[" in text
     out.check(has == expect_literal, "limit_of_another_generator_applied",
@@ -314,10 +321,10 @@ def parts(tier):
                 CH("e2e", "vflib.props.c10:scen_e2e", {"counts": [1, 3, 9, 10, 11, 15, 16, 17], "limits": [0, 1, 4, 10, 11, 16, 17]},
                    shards=16, timeout=170, path_timeout=30),
                 CH("two_generators", "vflib.props.c10:scen_two_generators", {}, shards=16, timeout=170, path_timeout=30)]
-    return [SMT("limits", "vflib.props.c10:kernel_limits", {}, timeout=900),
+    return [SMT("limits", "vflib.props.c10:kernel_limits", {}, timeout=400),
             SMT("escaping", "vflib.props.c10:kernel_escape", {}, timeout=200, mode="SMT-S"),
-            CH("e2e", "vflib.props.c10:scen_e2e", {"counts": list(range(1, 18)), "limits": list(range(0, 18))}, shards=16, timeout=900, path_timeout=30),
-            CH("two_generators", "vflib.props.c10:scen_two_generators", {}, shards=16, timeout=600, path_timeout=30)]
+            CH("e2e", "vflib.props.c10:scen_e2e", {"counts": list(range(1, 18)), "limits": list(range(0, 18))}, shards=16, timeout=400, path_timeout=30),
+            CH("two_generators", "vflib.props.c10:scen_two_generators", {}, shards=16, timeout=400, path_timeout=30)]
 
 
 META = {
